@@ -156,6 +156,7 @@ def run(run: common.Run):
         lines.append(line)
         impls.append(impl_line(o))
         run.sample(dict(case=case, model_request=lines[-1], impl_reply=impls[-1][:300]), 3)
+    cross_crs(run)
     failed = {f['case']['i'] for f in run.failures}
     replies = common.model_batch(lines)
     if replies is None:
@@ -253,3 +254,83 @@ def tie_tolerant_equal(case, m, im):
                     ok_round(m_oout[k] + m_oout[k + 2], i_oout[k] + i_oout[k + 2], axis_p, axis_o, phi)):
                 return False
     return True
+
+
+def cross_crs(run):
+    """
+    Source and reference in different coordinate systems (neighbouring UTM zones), either resolution order, every
+    processing-grid choice: not modelled (the re-projected grids are GDAL's), but the property's own predicate is evaluated
+    on the code's windows - every pixel of the source image *as processed* (reader.src_im, possibly a WarpedVRT) must lie
+    in exactly one output window, and input windows must contain output windows.
+    """
+    import warnings
+    import numpy as np
+    import rasterio as rio
+    from rasterio.crs import CRS
+    from rasterio.transform import Affine
+    from rasterio.warp import transform_bounds
+    from homonim.raster_pair import RasterPairReader
+    from homonim.enums import ProcCrs
+    from homonim import errors
+    tmp = run.tmpdir()
+    c34, c35 = CRS.from_epsg(32734), CRS.from_epsg(32735)
+    k = 0
+    for (sres, rres) in ((10.0, 4.0), (4.0, 10.0), (5.0, 5.0)):
+        for proc in ('auto', 'src', 'ref'):
+            for nblk in (0, 3):
+                k += 1
+                rng = run.rng(f'crs{k}')
+                sw, sh = rng.randint(30, 60), rng.randint(30, 60)
+                # source in UTM 34S close to the zone boundary (x ~ 760 km), reference in UTM 35S covering it with a margin
+                sx0, sy0 = 760_000.0 + rng.randint(0, 500), 6_200_000.0 + rng.randint(0, 500)
+                st = Affine(sres, 0, sx0, 0, -sres, sy0)
+                sb = (sx0, sy0 - sh * sres, sx0 + sw * sres, sy0)
+                l, b, r_, t = transform_bounds(c34, c35, *sb, densify_pts=21)
+                m = 12 * max(sres, rres)
+                rx0, ry0 = np.floor((l - m) / rres) * rres, np.ceil((t + m) / rres) * rres
+                rw, rh = int(np.ceil((r_ + m - rx0) / rres)), int(np.ceil((ry0 - (b - m)) / rres))
+                rt = Affine(rres, 0, rx0, 0, -rres, ry0)
+                sp, rp = tmp / 'c06x_s.tif', tmp / 'c06x_r.tif'
+                for p_, tr, w_, h_, crs in ((sp, st, sw, sh, c34), (rp, rt, rw, rh, c35)):
+                    with rio.open(p_, 'w', driver='GTiff', width=w_, height=h_, count=2, dtype='float32', crs=crs, transform=tr,
+                                  nodata=float('nan')) as ds:
+                        ds.write(np.ones((2, h_, w_), dtype='float32'))
+                case = dict(i=900_000 + k, op='cross-crs', src_res=sres, ref_res=rres, proc=proc, halvings=nblk, src_shape=(sh, sw))
+                try:
+                    with warnings.catch_warnings():
+                        warnings.simplefilter('ignore')
+                        rd = RasterPairReader(sp, rp, proc_crs=ProcCrs(proc))
+                        with rd:
+                            proc_ref = rd.proc_crs == ProcCrs.ref
+                            pw = rd._ref_win if proc_ref else rd._src_win
+                            mbm = (pw.height * pw.width * 4 / 2 ** nblk) * 1.0001 / 2 ** 20 if nblk else np.inf
+                            bps = list(rd.block_pairs(overlap=(2, 3), max_block_mem=mbm))
+                            shp = rd.src_im.shape
+                except errors.BlockSizeError:
+                    continue
+                except Exception as ex:
+                    run.fail(case, f'reader raised {type(ex).__name__}: {ex}', signature=dict(kind='raises'))
+                    continue
+                run.evaluations += 1
+                run.hist['cross-CRS pairs'] += 1
+                run.nontrivial.add(('crs', sres, rres, proc, nblk))
+                cover = np.zeros((2, *shp), dtype=int)
+                bad = None
+                for bp in bps:
+                    w = bp.src_out_block
+                    r0, r1 = max(int(w.row_off), 0), min(int(w.row_off + w.height), shp[0])
+                    c0, c1 = max(int(w.col_off), 0), min(int(w.col_off + w.width), shp[1])
+                    if r1 > r0 and c1 > c0:
+                        cover[bp.band_i, r0:r1, c0:c1] += 1
+                    for inb, outb in ((bp.src_in_block, bp.src_out_block), (bp.ref_in_block, bp.ref_out_block)):
+                        io, oo = inb, outb
+                        if proc_ref == (inb is bp.ref_in_block):   # processing-grid windows are exact integers
+                            if not (io.col_off <= oo.col_off and io.row_off <= oo.row_off and
+                                    io.col_off + io.width >= oo.col_off + oo.width and io.row_off + io.height >= oo.row_off + oo.height):
+                                bad = f'input window {io} does not contain output window {oo}'
+                ngap, ndbl = int((cover == 0).sum()), int((cover > 1).sum())
+                if ngap or ndbl:
+                    bad = (f'cross-CRS pair (source {sres} m UTM34S, reference {rres} m UTM35S, proc {proc}): {ngap} pixels of the '
+                           f'processed source {shp} in no output window, {ndbl} in more than one')
+                if bad:
+                    run.fail(case, bad, signature=dict(kind='cross-crs-cover'))
